@@ -71,6 +71,18 @@ Theorem C13_concat : forall (fc : fconv) pk reg,
 Proof. exact C13_concat_proof. Qed.
 Print Assumptions C13_concat.
 
+(* 2b. self-delimiting: if one encoding followed by r1 is byte-for-byte another encoding followed by
+       r2, both read as the same value and leave the same rest (no encoding is a proper prefix of
+       another one that means something else) *)
+Theorem C13_self_delimiting : forall (fc : fconv) (pk : value -> option serr) reg,
+  (forall b w, to32 fc b = SOk w -> 0 <= w < 2 ^ 32) ->
+  forall v1 v2 n1 n2 b1 b2 r1 r2,
+  wf fc reg v1 -> wf fc reg v2 -> norm fc v1 = SOk n1 -> norm fc v2 = SOk n2 ->
+  enc fc reg v1 = SOk b1 -> enc fc reg v2 = SOk b2 ->
+  b1 ++ r1 = b2 ++ r2 -> n1 = n2 /\ r1 = r2.
+Proof. exact C13_self_delimiting_proof. Qed.
+Print Assumptions C13_self_delimiting.
+
 (* 3. the encoder produces bytes exactly on its domain [accepts] (64-bit ints, floats that fit
       float32, surrogate-free strings and byte strings up to 2^20 bytes, containers up to 2^14
       elements, packable class ids, legal enum members, nested arbitrarily); everything else —
